@@ -110,6 +110,8 @@ def finalize(m: dict, tier: str) -> list[str]:
             out.append(f"no expression with a repeated key reached the library in {cx}")
     if not mon.get("bound:ops(M6):wsh"):
         out.append("executed-op hook (M6) never evaluated on a P2WSH spend")
+    if not mon.get("bound:ops(branch-free script):tap"):
+        out.append("max_ops never compared with a branch-free tapscript")
     if not mon.get("bound:ops(M6):wsh:checkmultisig"):
         out.append("executed-op hook (M6) never saw an executed CHECKMULTISIG")
     for f in NEED_REACHED:
@@ -736,11 +738,6 @@ class ExprChecker:
             o2 = outcome(w.lm.parse, w.text(root, sugar), w.cx)
             if o2[0] == "raise" or not lib_equal(o2[1], ln):
                 ctx.stat(f"bip379-spelling-not-read-as-the-node:{'sugared' if sugar else 'plain'}")
-        # --- static ops against the reference's own count of the script
-        toks = rm.script_tokens(root)
-        if ln.max_ops is not None and script == rm.serialize(toks) and ln.max_ops < rm.count_ops(toks):
-            ctx.violation("max_ops-below-opcodes-in-script", f"max_ops = {ln.max_ops} but the script holds "
-                          f"{rm.count_ops(toks)} non-push opcodes, every one of which Core counts", {**desc, "script": script})
         self.sane.append(root)
         self.assignments(root, ln, script, desc)
         return True
@@ -836,6 +833,10 @@ class ExprChecker:
             vout = [cm.TxOut(r.choice([0, 1, 900]), r.choice([b"\x51", b"\x6a\x01x", b""])) for _ in range(r.choice([1, 1, 2]))]
             txs.append((cm.Tx(ver, vin, vout, lock), spent, {}, tag))
         bounds = {"ops": ln.max_ops, "stack": ln.max_stack_items, "exec": ln.max_exec_stack_items, "wit": ln.max_witness_size}
+        toks = rm.script_tokens(root)
+        straight = None
+        if script == rm.serialize(toks) and not any(t in (("op", "OP_IF"), ("op", "OP_NOTIF")) for t in toks):
+            straight = rm.count_ops(toks)
 
         def signature(ti: int, key: bytes, ht: int) -> bytes:
             tx, spent, cache, _ = txs[ti]
@@ -980,11 +981,17 @@ class ExprChecker:
             if lo[0] == "ok":
                 if not w.tap:
                     ctx.mon(f"bound:ops(M6):{sh}")
-                    if "multi" in frags and ops_seen > rm.count_ops(rm.script_tokens(root)):
+                    if "multi" in frags and ops_seen > rm.count_ops(toks):
                         ctx.mon(f"bound:ops(M6):{sh}:checkmultisig")
                     if bounds["ops"] is None or ops_seen > bounds["ops"]:
                         ctx.violation("bound-exceeded:executed-ops", f"the engine counted {ops_seen} executed ops, max_ops is {bounds['ops']}",
                                       {**case, "observed": ops_seen, "bound": bounds["ops"]})
+                elif straight is not None:
+                    # no interpreter counts ops under tapscript; where the script has no branch every opcode of it runs
+                    ctx.mon(f"bound:ops(branch-free script):{sh}")
+                    if bounds["ops"] is None or straight > bounds["ops"]:
+                        ctx.violation("bound-exceeded:executed-ops", f"the branch-free script executes its {straight} non-push "
+                                      f"opcodes, max_ops is {bounds['ops']}", {**case, "observed": straight, "bound": bounds["ops"]})
                 ctx.mon(f"bound:exec-stack(M6):{sh}")
                 if bounds["exec"] is None or depth_seen > bounds["exec"]:
                     ctx.violation("bound-exceeded:exec-stack-items", f"stack + altstack reached {depth_seen} elements, "
